@@ -104,7 +104,7 @@ Expected == CASE hd.mode = "full"    -> TreeDef(hd.cfg, XQ(win))
               [] hd.mode = "window"  -> WindowDef(hd.cfg, XQ(win))
               [] hd.mode = "rolling" -> RollingDef(hd.cfg)
               [] hd.mode = "machine" -> LET mo == TM_Out(hd.cfg, mst) IN IF mo = MUndef THEN RAny ELSE mo
-              [] hd.mode \in {"range", "nopanic"} -> RAny
+              [] hd.mode \in {"range", "nopanic", "alive"} -> RAny
 
 (* natural scale of an output: width of the range for bounded indicators, largest input magnitude otherwise *)
 Scale(cfg, want) ==
@@ -142,6 +142,12 @@ Verdict == \/ hd = <<>> \/ cnt = 0
            \/ /\ Tally("events")
               /\ IF hd.mode = "range" THEN RangeVerdict
                  ELSE IF hd.mode = "nopanic" THEN (~OIsPanic(cur) /\ Tally("nopanic")) \/ Report("panic")
+                 ELSE IF hd.mode = "alive" THEN
+                      \* very long streams (beyond 2^16 updates), answers sampled: no panic, finite, readiness never reverts
+                      /\ Tally("alive")
+                      /\ (~OIsPanic(cur) \/ Report("panic"))
+                      /\ (~OIsNonFinite(cur) \/ Report("non-finite"))
+                      /\ (~OIsValue(prv) \/ OIsValue(cur) \/ OIsPanic(cur) \/ Report("readiness-reverted"))
                  ELSE LET r == Expected IN
                       /\ Tally("def." \o r[1])
                       /\ (Within(cur, r) \/ Report("tracks-exact"))
